@@ -1,1 +1,2 @@
-
+import Proofs.TopicBasic
+import Proofs.Session
